@@ -36,6 +36,8 @@ int _vnadata_set_simple_format(vnadata_internal_t *vdip,
 	vnadata_parameter_type_t type, vnadata_format_t format)
 {
     vnadata_format_descriptor_t *vfdp_new = NULL;
+    vnadata_format_descriptor_t *vfdp_old;
+    int old_count;
     int rc = -1;
 
     /*
@@ -53,16 +55,21 @@ int _vnadata_set_simple_format(vnadata_internal_t *vdip,
     /*
      * Install the new vector.
      */
-    free((void *)vdip->vdi_format_vector);
+    vfdp_old = vdip->vdi_format_vector;
+    old_count = vdip->vdi_format_count;
     vdip->vdi_format_vector = vfdp_new;
     vdip->vdi_format_count = 1;
 
     /*
-     * Update the format string.
+     * Update the format string.  On failure, keep the old format.
      */
     if (_vnadata_update_format_string(vdip) == -1) {
+	vdip->vdi_format_vector = vfdp_old;
+	vdip->vdi_format_count = old_count;
+	free((void *)vfdp_new);
 	goto out;
     }
+    free((void *)vfdp_old);
     rc = 0;
 
 out:
